@@ -12,6 +12,10 @@ def cases(rng, tier):
     # closure-focused families
     for i in range(n // 5):
         yield Case(program=closure_program(rng), tag='closure')
+    # one enclosing closure called several times with different arguments: every inner function must
+    # see the arguments of *its* defining call (static, computed and outermost-relative references)
+    for i in range(n // 2):
+        yield Case(program=gen.render(scope_program(rng)), tag='scope', nontrivial=True)
 
 
 def closure_program(rng):
@@ -40,6 +44,100 @@ def closure_program(rng):
     return f"{e(a)} {e(b)} ㄷ ㄱ ㄴㄱㅎㄷ ㅎㄷ"
 
 
+def scope_program(rng):
+    """F = λ k… . [λ j… .] λ a0…a(q-1). BODY, where BODY mentions the outer (index) parameters statically,
+    as *computed positions* into its own frame (`a[k]`, `a[k+c]`), from a further nested immediately
+    applied function, or through outermost-relative frame numbers; F is then applied along several
+    different argument paths that share the enclosing closures (through a parameter, through ㅁㄷ,
+    through a partially applied intermediate, or recursively)."""
+    from ..gen import lit, call, bi, fundef, arg, funref
+    L = rng.choice([2, 2, 3])
+    q = rng.randint(2, 4)
+    m = rng.randint(0, q - 1)                      # index values are in [0, m]
+    nidx = [rng.randint(1, 2) for _ in range(L - 1)]
+
+    def relof(level, inner_extra):                 # frame number of `level` seen from the body (+ extra nesting)
+        rel = (L - 1 - level) + inner_extra
+        if rng.random() < 0.2:
+            return -(level + 1)                    # the same frame counted from the outermost
+        return rel
+
+    def idx_ref(extra):
+        lv = rng.randrange(L - 1)
+        return arg(rng.randrange(nidx[lv]), relof(lv, extra))
+
+    def body(depth, extra):
+        c = rng.random()
+        own = 0 + extra if rng.random() < 0.8 else -(L + 0)      # own frame of the int parameters
+        own = extra
+        if depth >= 3 or c < 0.15:
+            return arg(rng.randrange(q), own) if rng.random() < 0.6 else lit(rng.randint(-5, 5))
+        if c < 0.45:                               # computed position from an outer index parameter
+            k = idx_ref(extra)
+            cc = rng.randint(0, q - 1 - m)
+            pos = k if cc == 0 or rng.random() < 0.5 else bi('ㄷ', k, lit(cc))
+            return arg(pos, own)
+        if c < 0.55:                               # static outer use
+            return idx_ref(extra)
+        if c < 0.65:                               # computed position from the own frame (control)
+            return arg(bi('ㄷ', lit(rng.randrange(q) - 1), lit(1)), own)
+        if c < 0.80 and extra < 2:                 # a further nested function applied on the spot
+            inner = fundef(body(depth + 1, extra + 1))
+            if rng.random() < 0.5:
+                return call(inner, *[body(depth + 2, extra) for _ in range(q)])
+            # … or selected lazily by a Boolean among two nested functions
+            other = fundef(body(depth + 1, extra + 1))
+            sel = call(bi('ㅈ', body(depth + 2, extra), body(depth + 2, extra)), inner, other)
+            return call(sel, *[body(depth + 2, extra) for _ in range(q)])
+        op = rng.choice(['ㄷ', 'ㄱ'])
+        return bi(op, body(depth + 1, extra), body(depth + 1, extra))
+
+    # own: the q-ary function's frame is `extra` levels out when referenced from nested bodies; patch `arg`
+    # uses above: own-frame references use rel = extra (0 in the body itself)
+    F = body(0, 0)
+    F = fundef(F)
+    for lv in range(L - 2, -1, -1):
+        F = fundef(F)
+
+    def xs():
+        return [lit(rng.randint(-9, 9)) for _ in range(q)]
+
+    def ks(lv):
+        return [lit(rng.randint(0, m)) for _ in range(nidx[lv])]
+
+    f = lambda rel: arg(0, rel)
+    items = []
+    for _ in range(rng.randint(2, 4)):
+        w = rng.random()
+        if L == 2:
+            if w < 0.5:
+                items.append(call(call(f(0), *ks(0)), *xs()))
+            elif w < 0.8 and nidx[0] == 1:
+                vals = [lit(rng.randint(0, m)) for _ in range(rng.randint(2, 4))]
+                x = xs()
+                items.append(bi('ㅁㄷ', bi('ㅁㄹ', *vals), fundef(call(call(f(1), arg(0, 0)), *x))))
+            else:                                  # the same inner closure applied to two argument lists
+                items.append(call(fundef(bi('ㅁㄹ', call(arg(0, 0), *xs()), call(arg(0, 0), *xs()))),
+                                  call(f(0), *ks(0))))
+        else:
+            if w < 0.4:
+                items.append(call(call(call(f(0), *ks(0)), *ks(1)), *xs()))
+            else:                                  # partially applied intermediate shared by two paths
+                x = xs()
+                items.append(call(fundef(bi('ㅁㄹ', call(call(arg(0, 0), *ks(1)), *x),
+                                            call(call(arg(0, 0), *ks(1)), *x))),
+                                  call(f(0), *ks(0))))
+    prog = call(fundef(bi('ㅁㄹ', *items)), F)
+    if L == 2 and nidx[0] == 1 and rng.random() < 0.25:
+        # recursive enclosing function: G(n) = n < 0 ? 0 : F-body-with-k=n (xs) + G(n-1)
+        x = xs()
+        inner = F[1]                               # λ a… . BODY, its index frame is G's frame
+        G = fundef(call(bi('ㅈ', arg(0, 0), lit(0)), lit(0),
+                        bi('ㄷ', call(inner, *x), call(funref(0), bi('ㄷ', arg(0, 0), lit(-1))))))
+        prog = call(G, lit(m))
+    return prog
+
+
 def relevant(rec, case):
     d = rec.get('detail', {})
     a, m = d.get('impl', {}), d.get('model', {})
@@ -55,7 +153,7 @@ SPEC = {
     'relevant': relevant,
     'stream': 'C02 typed/closure program stream (main.main result vs uhdrv main)',
     'rule': 'type-directed random closed programs (closures returned / passed / nested ≤ depth, computed and negative '
-            'indices, Boolean / list / dict / string callables) plus closure families; a case is non-trivial when its '
+            'indices, Boolean / list / dict / string callables) plus closure families and the scope family (one enclosing closure applied along several argument paths; inner bodies refer to outer parameters statically, as computed positions, from nested functions, outermost-relative); a case is non-trivial when its '
             'tree has ≥ 8 nodes; distinct by program text',
     'trusted': ['hand-written model UH/Model/{Interp,Builtins,Machine}.lean tied to the code by correspondence only'],
     'assumptions': ['host big integers = Lean Int; IEEE-754 + − × ÷ of the host on both sides'],
